@@ -5,6 +5,7 @@ Every wait is bounded.  A wait for something the *implementation* owes (a reply,
 runs out is a finding; a wait for something only the harness itself does (spawning python) raises HarnessTimeout."""
 import asyncio
 import collections
+import errno
 import gc
 import os
 import shutil
@@ -29,6 +30,17 @@ def free_port():
     with socket.socket(socket.AF_INET, socket.SOCK_STREAM) as sk:
         sk.bind(("127.0.0.1", 0))
         return sk.getsockname()[1]
+
+
+def free_to_bind(port):
+    import socket
+    try:
+        with socket.socket(socket.AF_INET, socket.SOCK_STREAM) as sk:
+            sk.setsockopt(socket.SOL_SOCKET, socket.SO_REUSEADDR, 1)
+            sk.bind(("127.0.0.1", port))
+        return True
+    except OSError:
+        return False
 
 
 def repo_src():
@@ -341,6 +353,13 @@ class Book:
             self.stopped = True
             lines.append("vin stop")
             return True, lines
+        if op[0] == "restart":
+            # `serve_forever()` again on the same server object; only once the previous serving task is done
+            if not self.stopped or any(c["open"] for c in self.clients):
+                return False, lines
+            self.stopped = False
+            lines.append("vin restart")
+            return True, lines
         return False, lines
 
     def open_clients(self, kinds=("raw", "cli")):
@@ -449,6 +468,26 @@ def gen_ops(rng, tier, cli_budget):
         add(["leave", len(b.clients) - 1, how_to_leave(rng, "mute")])
     add(["stop"])
     add(["probe"])
+    if rng.random() < 0.3:
+        # a second cycle on the same server object
+        add(["restart"])
+        for _ in range(rng.randint(1, 2)):
+            add(["connect", rng.choice(["raw", "raw", "cli", "mute"])])
+        for _ in range(rng.randint(0, 3)):
+            live = b.open_clients(("raw", "cli"))
+            if live:
+                add(["cmd", rng.choice(live), rng.choice(QUIET)])
+        if rng.random() < 0.5:
+            add(["stop"])
+            live = b.open_clients(("raw", "cli"))
+            if live and rng.random() < 0.5:
+                add(["cmd", rng.choice(live), rng.choice(QUIET)])
+        rest = b.open_clients(("raw", "cli", "mute"))
+        rng.shuffle(rest)
+        for i in rest:
+            add(["leave", i, how_to_leave(rng, b.clients[i]["kind"])])
+        add(["stop"])
+        add(["probe"])
     return ops
 
 
@@ -496,6 +535,11 @@ class NetRun:
             return True
         if want["done"] == "1" and got["done"] == "0":
             self.fail("monitor", monitor="serving-task-not-done-after-stop-and-clients-gone", step=step, detail=got)
+        elif want["done"] == "0" and got["done"] == "1":
+            self.fail("monitor", monitor="serving-task-ended-by-itself", step=step,
+                      detail={"state": got, "task": repr(self.task)[:300]})
+        elif want["listening"] == "1" and got["listening"] == "0":
+            self.fail("monitor", monitor="not-serving-though-started", step=step, detail=got)
         elif want["listening"] == "0" and got["listening"] == "1":
             self.fail("monitor", monitor="still-serving-after-stop", step=step, detail=got)
         elif want["file"] == "0" and got["file"] == "1":
@@ -672,6 +716,27 @@ class NetRun:
                                 break
                     elif op[0] == "stop":
                         self.task.cancel()
+                    elif op[0] == "restart":
+                        try:
+                            self.task = await asyncio.wait_for(self.srv.serve_forever(), STEP_WAIT)
+                        except asyncio.TimeoutError:
+                            self.fail("monitor", monitor="serve-forever-did-not-return", step=step, detail="second start")
+                            break
+                        except OSError as e:
+                            if case["transport"] == "tcp" and e.errno == errno.EADDRINUSE and free_to_bind(port):
+                                # the address is free and still the start failed
+                                self.fail("monitor", monitor="second-start-failed", step=step, detail=repr(e))
+                            elif case["transport"] == "tcp" and e.errno == errno.EADDRINUSE:
+                                self.stats["restart_port_taken"] += 1      # someone else got the port in between
+                            else:
+                                self.fail("monitor", monitor="second-start-failed", step=step, detail=repr(e))
+                            break
+                        except Exception as e:
+                            self.fail("monitor", monitor="second-start-failed", step=step, detail=repr(e))
+                            break
+                        if not isinstance(self.task, asyncio.Task):
+                            self.fail("monitor", monitor="serve-forever-no-live-task", step=step, detail=repr(self.task))
+                            break
                     await self.settle(m, step)
                     if self.fails:
                         break
